@@ -296,6 +296,27 @@ func runC20(ctx *Ctx) error {
 		c20Check(ctx, idx, cs)
 		idx++
 	}
+	// large inputs: any fixed internal limit (worker pool, semaphore, channel buffer) shows up only
+	// past its threshold, so sizes around powers of two and GOMAXPROCS are always included
+	bigs := []int{runtime.GOMAXPROCS(0) + 1, 33, 65, 129, 257, 1025}
+	if ctx.Thorough() {
+		bigs = append(bigs, 2049, 4097, 10001)
+	}
+	for _, n := range bigs {
+		for mode := 0; mode < 3; mode++ {
+			r := ctx.Rand.Fork()
+			cs := c20Case{Ok: make([]bool, n), MapDelay: make([]int, n), RedDelay: make([]int, n)}
+			for i := 0; i < n; i++ {
+				cs.Ok[i] = mode == 0 || (mode == 2 && r.Chance(2, 3))
+				if r.Chance(1, 8) {
+					cs.MapDelay[i] = r.Intn(50)
+				}
+			}
+			ctx.Rep.Count(fmt.Sprintf("large n=%d", n))
+			c20Check(ctx, idx, cs)
+			idx++
+		}
+	}
 	maxN, cases := 8, 300
 	if ctx.Thorough() {
 		maxN, cases = 64, 6000
